@@ -36,6 +36,17 @@ class Check:
         )
 
     def fail(self, rule: str, construct: str, where: str, what: str):
+        # a rule that looks at a function which still calls *new* private helpers the model could not expand sees only part
+        # of the code: what it would report is not a verdict ("cannot decide"), the same as an unknown idiom
+        inl = getattr(self.prog, "inliner", None)
+        if inl is not None and inl.residual:
+            key = ":".join(construct.split(":")[:2])
+            res = inl.residual.get(key)
+            if res:
+                why = "; ".join(l for l in inl.log if any(h in l for h in res))[:300]
+                self.refusals.append(f"{rule} {construct}: not decided - {key} still calls new helper(s) {res} that could not be expanded in place ({why}); "
+                                     f"the rule would otherwise report: {what[:160]}")
+                return
         self.obligations.append(
             dict(rule=rule, construct=construct, where=where, ok=False, detail=what, trivial=False)
         )
